@@ -10,9 +10,15 @@
 
 using namespace mfuse;
 
+#include <morfuse/Container/Container.h>
+
 namespace {
-struct Obj : public AbstractClass { int tag = 0; };
+// the engine base is deliberately NOT the first base: conversions between Obj* and AbstractClass*
+// must adjust the address; the canary sits where a missing adjustment would scribble
+struct Tagged { virtual ~Tagged() {} unsigned long canary = 0xC0FFEE11u; unsigned long pad[4] = {0, 0, 0, 0}; };
+struct Obj : public Tagged, public AbstractClass { int tag = 0; };
 using Ref = SafePtr<Obj>;
+con::Container<Ref>* cont = nullptr;
 
 std::vector<Obj*> objs;   // index = id, 0 unused
 std::vector<Ref*> refs;
@@ -40,6 +46,19 @@ std::string observe()
         if (!p) out += std::to_string(r) + ":0";
         else out += std::to_string(r) + ":" + std::to_string(idOf(p)) + ":" + (refs[r]->IsLastReference() ? "L" : "N");
     }
+    if (cont) {
+        for (size_t k = 1; k <= cont->NumObjects(); ++k) {
+            if (!out.empty()) out += ' ';
+            const Ref& e = cont->ObjectAt(k);
+            const Obj* p = e.Pointer();
+            if (!p) out += "c" + std::to_string(k) + ":0";
+            else out += "c" + std::to_string(k) + ":" + std::to_string(idOf(p)) + ":" + (e.IsLastReference() ? "L" : "N");
+        }
+    }
+    for (size_t i = 1; i < objs.size(); ++i) {
+        if (objs[i] && (objs[i]->canary != 0xC0FFEE11u || objs[i]->pad[0] || objs[i]->pad[1] || objs[i]->pad[2] || objs[i]->pad[3]))
+            out += " CANARY-BAD:" + std::to_string(i);
+    }
     return out;
 }
 }
@@ -48,6 +67,7 @@ int main()
 {
     objs.assign(4, nullptr);
     refs.assign(6, nullptr);
+    cont = new con::Container<Ref>;
     std::vector<std::string> t;
     while (readTokens(t)) {
         std::vector<size_t> n;
@@ -55,6 +75,7 @@ int main()
         const std::string& op = t.empty() ? std::string() : t[0];
         bool ok = false;
         if (op == "universe" && numeric && n.size() == 2) {
+            delete cont; cont = new con::Container<Ref>;
             for (auto*& r : refs) { delete r; r = nullptr; }
             for (auto*& o : objs) { delete o; o = nullptr; }
             objs.assign(n[0] + 1, nullptr);
@@ -75,6 +96,14 @@ int main()
             if (liveRef(n[0]) && okTarget(n[1])) { *refs[n[0]] = objOrNull(n[1]); ok = true; }
         } else if (op == "assignref" && n.size() == 2) {
             if (liveRef(n[0]) && liveRef(n[1])) { *refs[n[0]] = *refs[n[1]]; ok = true; }
+        } else if (op == "moveassign" && n.size() == 2) {
+            if (liveRef(n[0]) && liveRef(n[1]) && n[0] != n[1]) { *refs[n[0]] = std::move(*refs[n[1]]); refs[n[1]]->Clear(); ok = true; }
+        } else if (op == "movector" && n.size() == 2) {
+            if (n[0] != 0 && n[0] < refs.size() && !refs[n[0]] && liveRef(n[1])) { refs[n[0]] = new Ref(std::move(*refs[n[1]])); refs[n[1]]->Clear(); ok = true; }
+        } else if (op == "cadd" && n.size() == 1) {
+            if (cont && okTarget(n[0]) && cont->NumObjects() < 40) { cont->AddObject(Ref(objOrNull(n[0]))); ok = true; }
+        } else if (op == "cremove" && n.size() == 1) {
+            if (cont && n[0] >= 1 && n[0] <= cont->NumObjects()) { cont->RemoveObjectAt(n[0]); ok = true; }
         } else if (op == "clear" && n.size() == 1) {
             if (liveRef(n[0])) { refs[n[0]]->Clear(); ok = true; }
         } else if (op == "delref" && n.size() == 1) {
@@ -82,6 +111,7 @@ int main()
         }
         if (ok) say("ok " + observe()); else say("bad-op");
     }
+    delete cont; cont = nullptr;
     for (auto*& r : refs) { delete r; r = nullptr; }
     for (auto*& o : objs) { delete o; o = nullptr; }
     return 0;
